@@ -1,8 +1,8 @@
 /-
   C12, `json_max_fields_size` cutting (`cutFieldsBySize` / `jsonRawCutPoint`, decoder/json.go):
   A. totality  — no index / slice panic under what gjson guarantees about a reported string
-                 (`ProbeOk`): one configured path (`cutFields_total_single`) and several paths with
-                 pairwise disjoint literals (`cutFields_total`);
+                 (`ProbeOk`), for any number of configured paths, overlapping or not
+                 (`cutFields_total`; `cutFields_total_single` is the "fast way");
   B. validity  — with one configured path the cut keeps a prefix of the literal that is still a
                  string literal for the reference parser (no escape sequence is split) and touches
                  no other byte of the document (`cutFields_valid`).
@@ -86,15 +86,18 @@ theorem findPos_spec (data : Bytes) (p : Probe) (h : ProbeOk data p) :
       Bool.not_eq_false, Int.not_le] at hc
     obtain ⟨hf, hl⟩ := hc
     obtain ⟨h0, h2, hlen, hs⟩ := h hf
-    rw [slice?_ok _ _ _ (by omega), ok_bind]
-    obtain ⟨r, hr, hr1, hr2⟩ := cutPoint_spec
-      (List.take ((p.index + p.rawLen).toNat - p.index.toNat) (List.drop p.index.toNat data)) p.limit
-    rw [hr, ok_bind]
-    refine ⟨_, rfl, ?_⟩
-    intro s e hse
-    simp only [Option.some.injEq, Prod.mk.injEq] at hse
-    obtain ⟨rfl, rfl⟩ := hse
-    omega
+    by_cases hz : p.index = 0
+    · rw [if_pos hz]
+      exact ⟨none, rfl, by intro _ _ h; cases h⟩
+    · rw [if_neg hz, slice?_ok _ _ _ (by omega), ok_bind]
+      obtain ⟨r, hr, hr1, hr2⟩ := cutPoint_spec
+        (List.take ((p.index + p.rawLen).toNat - p.index.toNat) (List.drop p.index.toNat data)) p.limit
+      rw [hr, ok_bind]
+      refine ⟨_, rfl, ?_⟩
+      intro s e hse
+      simp only [Option.some.injEq, Prod.mk.injEq] at hse
+      obtain ⟨rfl, rfl⟩ := hse
+      omega
 
 theorem applyCut_ok (data : Bytes) (s e : Int) (h : 0 ≤ s ∧ s ≤ e + 1 ∧ e + 1 ≤ data.length) :
     applyCut data (s, e) = .ok (data.take s.toNat ++ data.drop (e + 1).toNat) := by
@@ -107,7 +110,7 @@ theorem cutFields_invalid (ps : List Probe) (data : Bytes) : cutFields false ps 
   unfold cutFields
   simp
 
-/-- one configured path: `cutFields` is `findPos` followed by at most one cut -/
+/-- one configured path (the "fast way"): `cutFields` is `findPos` followed by at most one cut -/
 theorem cutFields_single (p : Probe) (data : Bytes) :
     cutFields true [p] data
       = (findPos data p >>= fun r => match r with
@@ -121,9 +124,7 @@ theorem cutFields_single (p : Probe) (data : Bytes) :
   | ok r =>
     cases r with
     | none => rfl
-    | some x =>
-      simp only [ok_bind, List.foldr, insertDesc, applyAll, pure_eq_ok]
-      cases applyCut data x <;> rfl
+    | some x => rfl
 
 /-- A3. one configured path: no panic -/
 theorem cutFields_total_single (valid : Bool) (p : Probe) (data : Bytes) (h : ProbeOk data p) :
@@ -367,11 +368,12 @@ theorem cut_lit (pre kept tail post : Bytes) :
     `body` that is still a literal body (no escape sequence split, so the document stays as
     well-formed as it was); nothing outside the literal is touched; a value within the limit is
     left alone, a cut one keeps at most `limit` bytes. `hlit` says `"body"` is a literal for the
-    reference parser (`Json.strBody` at the empty accumulator). -/
+    reference parser (`Json.strBody` at the empty accumulator); `hpre`: the value is not at
+    offset 0, which the code takes for "position unknown" (`cutFields_index_zero`). -/
 theorem cutFields_valid (pre body post : Bytes) (p : Probe)
     (hlit : Json.strBody (body ++ cQuote :: post) [] = some (body, post))
-    (hidx : p.index = pre.length) (hraw : p.rawLen = body.length + 2) (hfound : p.found = true)
-    (hstr : p.strLen ≤ body.length) :
+    (hpre : pre ≠ []) (hidx : p.index = pre.length) (hraw : p.rawLen = body.length + 2)
+    (hfound : p.found = true) (hstr : p.strLen ≤ body.length) :
     ∃ body', cutFields true [p] (pre ++ cQuote :: (body ++ cQuote :: post))
           = .ok (pre ++ cQuote :: (body' ++ cQuote :: post))
       ∧ (∃ tail, body = body' ++ tail)
@@ -387,7 +389,10 @@ theorem cutFields_valid (pre body post : Bytes) (p : Probe)
     rw [if_pos hcond]
     exact ⟨body, rfl, ⟨[], by simp⟩, fun acc => htoks.strBody post acc, fun _ => rfl, fun h => by omega⟩
   · have hcond : ¬ (!p.found || decide (p.strLen ≤ p.limit)) = true := by simp [hc, hfound]
-    rw [if_neg hcond, hidx, hraw, slice_lit, ok_bind]
+    have hz : ¬ p.index = 0 := by
+      have := List.length_pos_iff.mpr hpre
+      omega
+    rw [if_neg hcond, if_neg hz, hidx, hraw, slice_lit, ok_bind]
     unfold cutPoint
     obtain ⟨kept, tail, hsplit, hkept, hloop⟩ :=
       loop_toks p.limit htoks [cQuote] (([cQuote] ++ (body ++ [cQuote])).length + 1)
@@ -407,15 +412,15 @@ theorem cutFields_valid (pre body post : Bytes) (p : Probe)
 /-- the statement with the literal hypothesis at every accumulator -/
 theorem cutFields_valid' (pre body post : Bytes) (p : Probe)
     (hlit : ∀ acc, Json.strBody (body ++ cQuote :: post) acc = some (acc ++ body, post))
-    (hidx : p.index = pre.length) (hraw : p.rawLen = body.length + 2) (hfound : p.found = true)
-    (hstr : p.strLen ≤ body.length) :
+    (hpre : pre ≠ []) (hidx : p.index = pre.length) (hraw : p.rawLen = body.length + 2)
+    (hfound : p.found = true) (hstr : p.strLen ≤ body.length) :
     ∃ body', cutFields true [p] (pre ++ cQuote :: (body ++ cQuote :: post))
           = .ok (pre ++ cQuote :: (body' ++ cQuote :: post))
       ∧ (∃ tail, body = body' ++ tail)
       ∧ (∀ acc, Json.strBody (body' ++ cQuote :: post) acc = some (acc ++ body', post))
       ∧ (p.strLen ≤ p.limit → body' = body)
       ∧ (p.limit < p.strLen → (body'.length : Int) ≤ max 0 p.limit) :=
-  cutFields_valid pre body post p (by simpa using hlit []) hidx hraw hfound hstr
+  cutFields_valid pre body post p (by simpa using hlit []) hpre hidx hraw hfound hstr
 
 /-- the accumulator of the reference scanner is only ever extended -/
 theorem strBody_acc (s a b : Bytes) :
@@ -462,6 +467,15 @@ theorem cutFields_not_found (p : Probe) (data : Bytes) (h : p.found = false) :
   unfold findPos
   simp [h]
 
+/-- a value reported at offset 0 (gjson: position unknown, e.g. a computed value) is left alone -/
+theorem cutFields_index_zero (p : Probe) (data : Bytes) (h : p.index = 0) :
+    cutFields true [p] data = .ok data := by
+  rw [cutFields_single]
+  unfold findPos
+  by_cases hc : (!p.found || decide (p.strLen ≤ p.limit)) = true
+  · rw [if_pos hc]; rfl
+  · rw [if_neg hc, if_pos h]; rfl
+
 /-! ### concrete instances (non-vacuity) -/
 
 /-- the historical failing input: `{"a":"x\"\"\"\""}`, limit 2, is cut to `{"a":"x"}` — the cut
@@ -472,10 +486,17 @@ example : cutFields true [exProbe] exDoc = .ok [123, 34, 97, 34, 58, 34, 120, 34
 /-- limit 3 keeps `x\"` -/
 example : cutFields true [⟨3, true, 5, 5, 11⟩] exDoc = .ok [123, 34, 97, 34, 58, 34, 120, 92, 34, 34, 125] := rfl
 
-/-- `é` is stepped over as a whole: limit 5 keeps nothing of `éz`, limit 6 the escape -/
-example : cutFields true [⟨5, true, 0, 7, 9⟩] [34, 92, 117, 48, 48, 101, 57, 122, 34] = .ok [34, 34] := rfl
-example : cutFields true [⟨6, true, 0, 7, 9⟩] [34, 92, 117, 48, 48, 101, 57, 122, 34]
-    = .ok [34, 92, 117, 48, 48, 101, 57, 34] := rfl
+/-- `["\u00e9z"]`: the escape is stepped over as a whole, limit 5 keeps nothing, limit 6 the escape -/
+example : cutFields true [⟨5, true, 1, 7, 9⟩] [91, 34, 92, 117, 48, 48, 101, 57, 122, 34, 93]
+    = .ok [91, 34, 34, 93] := rfl
+example : cutFields true [⟨6, true, 1, 7, 9⟩] [91, 34, 92, 117, 48, 48, 101, 57, 122, 34, 93]
+    = .ok [91, 34, 92, 117, 48, 48, 101, 57, 34, 93] := rfl
+
+/-- the document `"\u00e9z"` itself: the value is at offset 0 and is skipped -/
+example : cutFields true [⟨5, true, 0, 7, 9⟩] [34, 92, 117, 48, 48, 101, 57, 122, 34]
+    = .ok [34, 92, 117, 48, 48, 101, 57, 122, 34] := rfl
+example : cutFields true [⟨5, true, 0, 7, 9⟩] [34, 92, 117, 48, 48, 101, 57, 122, 34]
+    = .ok [34, 92, 117, 48, 48, 101, 57, 122, 34] := cutFields_index_zero _ _ rfl
 
 example : cutFields false [exProbe] exDoc = .ok exDoc := cutFields_invalid _ _
 example : cutFields true [⟨2, false, 0, 0, 0⟩] exDoc = .ok exDoc := cutFields_not_found _ _ rfl
@@ -486,19 +507,9 @@ example : ∃ body', cutFields true [exProbe] exDoc = .ok ([123, 34, 97, 34, 58]
       ∧ (∀ acc, Json.strBody (body' ++ cQuote :: [125]) acc = some (acc ++ body', [125]))
       ∧ (exProbe.strLen ≤ exProbe.limit → body' = [120, 92, 34, 92, 34, 92, 34, 92, 34])
       ∧ (exProbe.limit < exProbe.strLen → (body'.length : Int) ≤ max 0 exProbe.limit) :=
-  cutFields_valid [123, 34, 97, 34, 58] [120, 92, 34, 92, 34, 92, 34, 92, 34] [125] exProbe rfl rfl rfl rfl (by decide)
+  cutFields_valid [123, 34, 97, 34, 58] [120, 92, 34, 92, 34, 92, 34, 92, 34] [125] exProbe rfl (by simp) rfl rfl rfl (by decide)
 
-/-! ## A4. several configured paths -/
-
-/-- the literals reported for two paths do not overlap (distinct values of one document) -/
-def RawDisj (p q : Probe) : Prop :=
-  p.found = true → q.found = true → p.index + p.rawLen ≤ q.index ∨ q.index + q.rawLen ≤ p.index
-
-/-- two cut spans with at least one byte (a closing quote) between them -/
-def Sep (x y : Int × Int) : Prop := x.2 + 1 < y.1 ∨ y.2 + 1 < x.1
-
-/-- `y` ends before `x` starts -/
-def Below (x y : Int × Int) : Prop := y.2 + 1 < x.1
+/-! ## A4. several configured paths (overlapping or not) -/
 
 theorem findPos_some_found (data : Bytes) (p : Probe) (x : Int × Int) (h : findPos data p = .ok (some x)) :
     p.found = true := by
@@ -508,48 +519,32 @@ theorem findPos_some_found (data : Bytes) (p : Probe) (x : Int × Int) (h : find
   · simp only [Bool.or_eq_true, Bool.not_eq_eq_eq_not, Bool.not_true, not_or, Bool.not_eq_false] at hc
     exact hc.1
 
-/-- the collected spans lie inside the literals they come from, hence pairwise apart -/
+/-- every collected span lies inside the document -/
 theorem collect_spec (data : Bytes) :
-    ∀ (ps : List Probe), (∀ p ∈ ps, ProbeOk data p) → ps.Pairwise RawDisj →
+    ∀ (ps : List Probe), (∀ p ∈ ps, ProbeOk data p) →
       ∃ L, collect data ps = .ok L ∧
-        (∀ x ∈ L, ∃ p ∈ ps, p.found = true ∧ 0 ≤ p.index ∧ p.index + 1 ≤ x.1 ∧ x.1 ≤ x.2 + 1 ∧
-            x.2 + 2 = p.index + p.rawLen ∧ x.2 + 1 ≤ data.length) ∧
-        L.Pairwise Sep := by
+        ∀ x ∈ L, 0 ≤ x.1 ∧ x.1 ≤ x.2 + 1 ∧ x.2 + 1 ≤ data.length := by
   intro ps
   induction ps with
-  | nil => intro _ _; exact ⟨[], rfl, (by intro x hx; cases hx), .nil⟩
+  | nil => intro _; exact ⟨[], rfl, by intro x hx; cases hx⟩
   | cons p ps ih =>
-    intro hok hdisj
-    rw [List.pairwise_cons] at hdisj
-    obtain ⟨L, hL, hmem, hsep⟩ := ih (fun q hq => hok q (List.mem_cons_of_mem _ hq)) hdisj.2
+    intro hok
+    obtain ⟨L, hL, hmem⟩ := ih (fun q hq => hok q (List.mem_cons_of_mem _ hq))
     obtain ⟨r, hr, hspec⟩ := findPos_spec data p (hok p (List.mem_cons_self ..))
     unfold collect
     rw [hr, ok_bind, hL, ok_bind]
     cases r with
-    | none =>
-      refine ⟨L, rfl, ?_, hsep⟩
-      intro x hx
-      obtain ⟨q, hq, h⟩ := hmem x hx
-      exact ⟨q, List.mem_cons_of_mem _ hq, h⟩
+    | none => exact ⟨L, rfl, hmem⟩
     | some x =>
       obtain ⟨s, e⟩ := x
       obtain ⟨he, hs1, hs2, hlen⟩ := hspec s e rfl
       have hf := findPos_some_found data p _ hr
       have h0 := (hok p (List.mem_cons_self ..) hf).1
-      refine ⟨(s, e) :: L, rfl, ?_, ?_⟩
-      · intro y hy
-        rcases List.mem_cons.mp hy with rfl | hy
-        · exact ⟨p, List.mem_cons_self .., hf, h0, hs1, hs2, by omega, hlen⟩
-        · obtain ⟨q, hq, h⟩ := hmem y hy
-          exact ⟨q, List.mem_cons_of_mem _ hq, h⟩
-      · rw [List.pairwise_cons]
-        refine ⟨?_, hsep⟩
-        intro y hy
-        obtain ⟨q, hq, hqf, _, hq1, _, hq2, _⟩ := hmem y hy
-        have := hdisj.1 q hq hf hqf
-        unfold Sep
-        simp only []
-        omega
+      refine ⟨(s, e) :: L, rfl, ?_⟩
+      intro y hy
+      rcases List.mem_cons.mp hy with rfl | hy
+      · exact ⟨by omega, hs2, hlen⟩
+      · exact hmem y hy
 
 theorem mem_insertDesc (x w : Int × Int) (ys : List (Int × Int)) :
     w ∈ insertDesc x ys ↔ w = x ∨ w ∈ ys := by
@@ -570,102 +565,67 @@ theorem mem_insertDesc (x w : Int × Int) (ys : List (Int × Int)) :
         · exact .inl h
         · exact .inr (.inr h)
 
-/-- inserting a span that is apart from all the others keeps "descending and apart" -/
-theorem insertDesc_below (x : Int × Int) (hx : x.1 ≤ x.2 + 1) :
-    ∀ (ys : List (Int × Int)), ys.Pairwise Below → (∀ y ∈ ys, Sep x y) → (∀ y ∈ ys, y.1 ≤ y.2 + 1) →
-      (insertDesc x ys).Pairwise Below := by
-  intro ys
-  induction ys with
-  | nil => intro _ _ _; simp [insertDesc]
-  | cons y ys ih =>
-    intro hp hsep hwf
-    rw [List.pairwise_cons] at hp
-    have hxy := hsep y (List.mem_cons_self ..)
-    have hy := hwf y (List.mem_cons_self ..)
-    unfold Sep at hxy
-    unfold insertDesc
-    by_cases hlt : y.1 < x.1
-    · rw [if_pos hlt, List.pairwise_cons]
-      refine ⟨?_, List.pairwise_cons.mpr hp⟩
-      intro w hw
-      unfold Below
-      rcases List.mem_cons.mp hw with rfl | hw
-      · omega
-      · have := hp.1 w hw
-        unfold Below at this
-        omega
-    · rw [if_neg hlt, List.pairwise_cons]
-      refine ⟨?_, ih hp.2 (fun z hz => hsep z (List.mem_cons_of_mem _ hz))
-        (fun z hz => hwf z (List.mem_cons_of_mem _ hz))⟩
-      intro w hw
-      rcases (mem_insertDesc x w ys).mp hw with rfl | hw
-      · unfold Below; omega
-      · exact hp.1 w hw
-
-/-- the insertion sort yields the same spans, descending and apart -/
-theorem sortDesc_spec :
-    ∀ (L : List (Int × Int)), L.Pairwise Sep → (∀ x ∈ L, x.1 ≤ x.2 + 1) →
-      (L.foldr insertDesc []).Pairwise Below ∧ ∀ w, w ∈ L.foldr insertDesc [] ↔ w ∈ L := by
+/-- the insertion sort yields the same spans -/
+theorem mem_sortDesc (w : Int × Int) :
+    ∀ (L : List (Int × Int)), w ∈ L.foldr insertDesc [] ↔ w ∈ L := by
   intro L
   induction L with
-  | nil => intro _ _; exact ⟨.nil, fun w => Iff.rfl⟩
-  | cons x L ih =>
-    intro hsep hwf
-    rw [List.pairwise_cons] at hsep
-    obtain ⟨hb, hm⟩ := ih hsep.2 (fun z hz => hwf z (List.mem_cons_of_mem _ hz))
-    rw [List.foldr_cons]
-    constructor
-    · apply insertDesc_below x (hwf x (List.mem_cons_self ..)) _ hb
-      · intro y hy; exact hsep.1 y ((hm y).mp hy)
-      · intro y hy; exact hwf y (List.mem_cons_of_mem _ ((hm y).mp hy))
-    · intro w
-      rw [mem_insertDesc, hm, List.mem_cons]
+  | nil => exact Iff.rfl
+  | cons x L ih => rw [List.foldr_cons, mem_insertDesc, ih, List.mem_cons]
 
-/-- cuts applied from the highest position down: a cut does not move the bytes below it -/
+/-- the cutting loop: a span either still fits the (shortened) document or reaches into the
+    previous cut and is skipped. After a cut at `(s, e)` the document keeps its first `s` bytes,
+    so a span ending below `s` still fits and every other one is skipped. (The order of the spans
+    plays no role for the absence of panics.) -/
 theorem applyAll_total :
-    ∀ (S : List (Int × Int)) (data : Bytes), S.Pairwise Below →
-      (∀ x ∈ S, 0 ≤ x.1 ∧ x.1 ≤ x.2 + 1 ∧ x.2 + 1 ≤ data.length) → Total (applyAll S data) := by
+    ∀ (S : List (Int × Int)) (prev : Int) (data : Bytes),
+      (∀ x ∈ S, 0 ≤ x.1 ∧ x.1 ≤ x.2 + 1 ∧ (x.2 + 1 ≤ data.length ∨ prev ≤ x.2)) →
+      Total (applyAll S prev data) := by
   intro S
   induction S with
-  | nil => intro data _ _; simp [applyAll]
+  | nil => intro prev data _; unfold applyAll; simp
   | cons x S ih =>
-    intro data hp hok
-    rw [List.pairwise_cons] at hp
+    intro prev data hok
     obtain ⟨s, e⟩ := x
     have hx := hok (s, e) (List.mem_cons_self ..)
     simp only [] at hx
     unfold applyAll
-    rw [applyCut_ok _ _ _ hx, ok_bind]
-    apply ih _ hp.2
-    intro y hy
-    have hy1 := hok y (List.mem_cons_of_mem _ hy)
-    have hy2 := hp.1 y hy
-    unfold Below at hy2
-    simp only [] at hy2
-    have hl : s.toNat ≤ (List.take s.toNat data ++ List.drop (e + 1).toNat data).length := by
-      rw [List.length_append, List.length_take]
+    by_cases hskip : e ≥ prev
+    · rw [if_pos hskip]
+      exact ih prev data (fun y hy => hok y (List.mem_cons_of_mem _ hy))
+    · rw [if_neg hskip, applyCut_ok _ _ _ (by omega), ok_bind]
+      apply ih
+      intro y hy
+      have hy1 := hok y (List.mem_cons_of_mem _ hy)
+      have hl : s.toNat ≤ (List.take s.toNat data ++ List.drop (e + 1).toNat data).length := by
+        rw [List.length_append, List.length_take]
+        omega
+      refine ⟨hy1.1, hy1.2.1, ?_⟩
+      simp only []
       omega
-    omega
 
-/-- A4. several configured paths whose literals do not overlap: no panic -/
+/-- A4. any number of configured paths, whatever they resolve to: no panic -/
 theorem cutFields_total (valid : Bool) (ps : List Probe) (data : Bytes)
-    (hok : ∀ p ∈ ps, ProbeOk data p) (hdisj : ps.Pairwise RawDisj) :
-    Total (cutFields valid ps data) := by
+    (hok : ∀ p ∈ ps, ProbeOk data p) : Total (cutFields valid ps data) := by
   unfold cutFields
+  obtain ⟨L, hL, hmem⟩ := collect_spec data ps hok
   by_cases hc : (ps.length = 0 || !valid) = true
   · rw [if_pos hc]; simp
-  · rw [if_neg hc]
-    obtain ⟨L, hL, hmem, hsep⟩ := collect_spec data ps hok hdisj
-    rw [hL, ok_bind]
-    have hwf : ∀ x ∈ L, x.1 ≤ x.2 + 1 := by
+  · rw [if_neg hc, hL, ok_bind, ok_bind]
+    by_cases h1 : ps.length = 1
+    · rw [if_pos h1]
+      split
+      · rename_i pos
+        obtain ⟨s, e⟩ := pos
+        have := hmem (s, e) (List.mem_cons_self ..)
+        rw [applyCut_ok _ _ _ this]
+        simp
+      · simp
+    · rw [if_neg h1]
+      apply applyAll_total
       intro x hx
-      obtain ⟨_, _, _, _, _, h, _⟩ := hmem x hx
-      exact h
-    obtain ⟨hb, hm⟩ := sortDesc_spec L hsep hwf
-    apply applyAll_total _ _ hb
-    intro x hx
-    obtain ⟨p, _, _, h0, h1, h2, _, h4⟩ := hmem x ((hm x).mp hx)
-    exact ⟨by omega, h2, h4⟩
+      obtain ⟨h0, h2, h4⟩ := hmem x ((mem_sortDesc x L).mp hx)
+      exact ⟨h0, h2, .inl h4⟩
 
 /-! ### concrete instances -/
 
@@ -685,19 +645,31 @@ example : cutFields true [exA, exB] exDoc2
 
 example : Total (cutFields true [exA, exB] exDoc2) := by
   apply cutFields_total
-  · intro p hp
-    simp only [List.mem_cons, List.not_mem_nil, or_false] at hp
-    rcases hp with rfl | rfl <;> (intro _; decide)
-  · refine .cons ?_ (.cons (by intro q hq; cases hq) .nil)
-    intro q hq
-    simp only [List.mem_cons, List.not_mem_nil, or_false] at hq
-    subst hq
-    intro _ _; decide
+  intro p hp
+  simp only [List.mem_cons, List.not_mem_nil, or_false] at hp
+  rcases hp with rfl | rfl <;> (intro _; decide)
 
-/-- the disjointness hypothesis is needed: two probes reporting the *same* literal (each `ProbeOk`)
-    make the second cut slice past the end of the already shortened document -/
-example : cutFields true [⟨1, true, 5, 8, 10⟩, ⟨1, true, 5, 8, 10⟩]
-      [123, 34, 97, 34, 58, 34, 120, 120, 120, 120, 120, 120, 120, 120, 34, 125]   -- {"a":"xxxxxxxx"}
-    = .error .bounds := rfl
+/-- two paths resolving to the *same* literal (`a` and `*` on `{"a":"xxxxxxxx"}`; this made the
+    unfixed loop slice past the end of the already shortened document): the value is cut once -/
+def exDoc3 : Bytes := [123, 34, 97, 34, 58, 34, 120, 120, 120, 120, 120, 120, 120, 120, 34, 125]
+#guard exDoc3 == str "{\"a\":\"xxxxxxxx\"}"
+
+example : cutFields true [⟨1, true, 5, 8, 10⟩, ⟨1, true, 5, 8, 10⟩] exDoc3
+    = .ok [123, 34, 97, 34, 58, 34, 120, 34, 125] := rfl   -- {"a":"x"}
+
+example : Total (cutFields true [⟨1, true, 5, 8, 10⟩, ⟨1, true, 5, 8, 10⟩] exDoc3) := by
+  apply cutFields_total
+  intro p hp
+  simp only [List.mem_cons, List.not_mem_nil, or_false, or_self] at hp
+  subst hp
+  intro _; decide
+
+/-- same value, different limits: the cut with the higher start wins, the other is skipped -/
+example : cutFields true [⟨1, true, 5, 8, 10⟩, ⟨3, true, 5, 8, 10⟩] exDoc3
+    = .ok [123, 34, 97, 34, 58, 34, 120, 120, 120, 34, 125] := rfl   -- {"a":"xxx"}
+
+/-- a probe at offset 0 is skipped in the loop as well -/
+example : cutFields true [⟨1, true, 0, 8, 10⟩, ⟨1, true, 5, 8, 10⟩] exDoc3
+    = .ok [123, 34, 97, 34, 58, 34, 120, 34, 125] := rfl
 
 end FileD.Dec.JsonCut
